@@ -388,6 +388,18 @@ def run_real(c):
     one("rs2", lambda: np.random.RandomState(c["seed"]), c["gseed"] + 4)
     if c["fn"] in ("two_sample", "two_sample_shift", "one_sample", "k_sample"):
         one("nokeep", lambda: c["seed"], c["gseed"] + 5, keep=False)
+    if c["fn"] in ("two_sample", "one_sample"):
+        # every generator type: what the statistic receives must be an admissible rearrangement of the data
+        for tag, mk in (("rec_rs", lambda: np.random.RandomState(c["seed"])), ("rec_int", lambda: c["seed"])):
+            rec = []
+            x = np.array(c["x"], dtype=float); y = np.array(c["y"], dtype=float)
+            if c["fn"] == "two_sample":
+                st = lambda u, v: (rec.append((np.array(u, dtype=float).tolist(), np.array(v, dtype=float).tolist())), float(np.mean(u) - np.mean(v)))[1]
+                r = guarded(lambda: core.two_sample(x, y, reps=min(c["reps"], 40), stat=st, alternative=c["alt"], keep_dist=True, seed=mk(), plus1=c["plus1"]))
+            else:
+                st = lambda z: (rec.append((np.array(z, dtype=float).tolist(),)), float(np.mean(z)))[1]
+                r = guarded(lambda: core.one_sample(x, None, reps=min(c["reps"], 40), stat=st, alternative=c["alt"], keep_dist=True, seed=mk(), plus1=c["plus1"]))
+            out[tag] = {"r": ["ok", float(r[1][0]), float(r[1][1]), [float(v) for v in r[1][2]]] if r[0] == "ok" else list(r), "rec": rec}
     return out
 
 
@@ -749,6 +761,18 @@ def oracle_pot(c, o):
 
 def oracle_real(c, o):
     name = c["fn"]
+    for tag in ("rec_rs", "rec_int"):
+        if tag in o:
+            x = [float(v) for v in c["x"]]; y = [float(v) for v in c["y"]]
+            for a in o[tag]["rec"]:
+                if name == "two_sample":
+                    ok = len(a[0]) == len(x) and len(a[1]) == len(y) and sorted(a[0] + a[1]) == sorted(x + y)
+                else:
+                    ok = len(a[0]) == len(x) and all(abs(u) == abs(v) for u, v in zip(a[0], x))
+                if not ok:
+                    gen = "RandomState" if tag == "rec_rs" else "int seed"
+                    return {"why": f"{name} with a {gen} generator handed the statistic {a}, not a rearrangement / sign change of x={x}, y={y}", "cls": f"{name}:inadmissible"}
+    o = {k: v for k, v in o.items() if not k.startswith("rec_")}
     rs = {k: v["r"] for k, v in o.items()}
     if any(v[0] != "ok" for v in rs.values()):
         bad = [(k, v[:3]) for k, v in rs.items() if v[0] != "ok"]
